@@ -95,9 +95,20 @@ def random_plan(rng, toks, nfaults, kinds):
             elif t.kind in OPPOSITE and x < 0.5:
                 k2, text = OPPOSITE[t.kind]
                 f.update(tkind=k2, text=text, val=None)
+            elif t.role in ("block-name", "end-name") and x < 0.3 and \
+                    t.text.swapcase() != t.text:
+                # names are case-sensitive: the same name in another case
+                # is another name
+                f.update(tkind=NAME, text=t.text.swapcase(),
+                         val=["str", t.text.swapcase()])
             elif t.role in ("block-name", "end-name") and x < 0.6:
                 f.update(tkind=NAME, text=t.text + "x",
                          val=["str", t.text + "x"])
+            elif t.kind == UNITS and x < 0.75:
+                # a units delimiter too many
+                f.update(tkind=BADUNITS, text=rng.choice(
+                    ["<" + t.text, t.text + ">", "<" + t.text + ">"]),
+                    val=None)
             else:
                 k2, text, val = rng.choice(
                     [r for r in REPLACEMENTS if r[0] != t.kind])
